@@ -228,9 +228,9 @@ func (e *Engine) VerifyFunc(key string) (res *FuncResult) {
 	rc := &rootCtx{fn: fn, key: key, spec: spec, nameCnt: map[string]int{}, abstracted: map[string]bool{}, params: map[string]SVal{}, used: map[string]bool{}, skippedThorough: map[string]bool{}}
 	e.cur = rc
 	e.setRgn(0)
-	rc.deadline = time.Now().Add(90 * time.Second)
+	rc.deadline = time.Now().Add(300 * time.Second)
 	if spec != nil && spec.MaxPaths > e.MaxPaths {
-		rc.deadline = time.Now().Add(time.Duration(90*spec.MaxPaths/e.MaxPaths) * time.Second)
+		rc.deadline = time.Now().Add(time.Duration(300*spec.MaxPaths/e.MaxPaths) * time.Second)
 	}
 	defer func() {
 		res.Obligs = rc.obligs
